@@ -241,6 +241,25 @@ func c01Run(c *fw.Ctx, b fw.Batch) {
 					st.sweep(c, fmt.Sprintf("seed-%d-inject", lo+si), m, false)
 				}
 			}
+			// ASCII digit runs (decimal length fields: MARC leader, tar octal fields, cpio, PDF) replaced by boundary numbers
+			for i := 0; i < len(s) && i < 600; i++ {
+				if s[i] < '0' || s[i] > '9' {
+					continue
+				}
+				j := i
+				for j < len(s) && s[j] >= '0' && s[j] <= '9' {
+					j++
+				}
+				for _, v := range []string{"0", "1", "7", "23", "24", "25", "99999999999", "00000000000000000000"} {
+					m := append([]byte(nil), s...)
+					for k := i; k < j; k++ {
+						m[k] = '0'
+					}
+					copy(m[maxInt(i, j-len(v)):j], v[maxInt(0, len(v)-(j-i)):])
+					st.sweep(c, fmt.Sprintf("seed-%d-digits", lo+si), m, false)
+				}
+				i = j
+			}
 			nm := 400
 			if thorough {
 				nm = 6000
